@@ -198,6 +198,16 @@ REGISTRY: Dict[str, List[Tuple[Frag, str]]] = {
               idfuncs=("self.index_to_world",)), "real"),
         (Frag("pool_spacing", _GRID, "Grid.pool", "assign", {"sp": "real", "ks": "real"}, target="grid", arg_of="Grid", kwarg="spacing",
               rename={"self.spacing()": "sp"}), "real"),
+        # Grid.pyramid: the integer recurrences inside the loops over `dims` / `level` — one step up from the coarsest level,
+        # the halving step down, and the value kept when the halved size falls below `min_size` (the comparison itself and the
+        # coarsest size `int(0.5 + (n + m) / 2**levels)` stay with the correspondence streams: `int()` / `2**levels` / nested
+        # `if` are outside the translator's subset)
+        (Frag("pyr_up_step", _GRID, "Grid.pyramid", "assign", {"s": "int"}, target="sizes[level][dim]", occ=(0, 0),
+              rename={"sizes[level + 1][dim]": "s"}), "int"),
+        (Frag("pyr_down_half", _GRID, "Grid.pyramid", "assign", {"p": "int"}, target="sizes[level][dim]", occ=(1, 1),
+              rename={"sizes[level - 1][dim]": "p"}), "int"),
+        (Frag("pyr_down_keep", _GRID, "Grid.pyramid", "assign", {"p": "int"}, target="sizes[level][dim]", occ=(2, 2),
+              rename={"sizes[level - 1][dim]": "p"}), "int"),
     ],
     "C07": [
         (Frag("translation_invert", "deepali/spatial/linear.py", "Translation.tensor", "block", {"offset": "real", "invert": "bool"},
